@@ -397,6 +397,24 @@ pub fn pool_runs(outp: &str, thorough: bool, seed: u64) {
             }
         }
     }
+    // a disc with a long cutoff in a small cell: several hundred images per energy sum (a sum
+    // that is split over worker threads must still add in one order)
+    {
+        let disc = LJShape2 {
+            name: "long range disc".into(),
+            items: vec![packing::LJ2 { position: nalgebra::Point2::new(0., 0.), sigma: 1., epsilon: 1., cutoff: Some(20.) }],
+        };
+        if let Ok(st) = PotentialState::from_group(disc, &group("p1")) {
+            if let Ok(mut j) = serde_json::to_value(&st) {
+                j["cell"]["length"] = json!(1.5);
+                if let Ok(st) = serde_json::from_value::<PotentialState<LJShape2>>(j) {
+                    id += 1;
+                    let short: Vec<&str> = vec!["--steps", "60", "--inner-steps", "20", "--kt-start", "0", "--max-step-size", "0.02"];
+                    one_config(&mut out, id, "p1 lj disc with cutoff 20, small cell", st, &short, reps, &threads);
+                }
+            }
+        }
+    }
     // short hot runs: final LJ scores of both signs
     let hot: Vec<&str> = vec!["--steps", "10", "--inner-steps", "10", "--kt-start", "100", "--kt-ratio", "0", "--max-step-size", "0.1"];
     if let Ok(st) = PotentialState::from_group(LJShape2::circle(), &group("p1")) {
